@@ -134,6 +134,31 @@ PLANS['C03'] = parse_plan('For every enumerated text on which even the lenient d
                           'TLC checks ParseMachine.tla against the lenient declarative grammar (must-reject class) on enumerated universes incl. all single-byte edits of accepted texts; real parser must reject with zero allocation balance')
 PLANS['C10'] = parse_plan('The parse-end, error-position and termination clauses are asserted by TLC on the transcription for every enumerated buffer and flag, and checked on the real calls: end inside the buffer and prefix re-parses to an equal tree, termination success only before a zero byte, error pointer equal to the global one and inside the buffer, NULL after success.',
                           'TLC asserts the end/error/termination clauses on ParseMachine.tla for every enumerated buffer x flag; real calls checked for pointer bounds, prefix re-parse, termination rule, global error pointer')
+# ------------------------------------------------------------------------------------------------ printer
+def print_run(name, tier, flavour='plain', failinject=False):
+    return {'name': name, 'module': 'MC_Print', 'mode': 'print', 'flavour': flavour,
+            'constants': {'Tier': '"%s"' % tier, 'Emit': 'TRUE', 'MaxDepth': 1000},
+            'drvargs': '--drift {outdir}/%s.drift.ndjson%s' % (name, ' --failinject' if failinject else ''), 'post': 'textcheck', 'timeout': 3000}
+PRINT_RULE = ('every tree of a finite universe (all scalars incl. boundary numbers and strings with quote, backslash, control, DEL and UTF-8 bytes; all arrays/objects '
+              'of width <= 2 over them with keys incl. empty/quote/newline; depth-3 chains; nested containers in thorough) x {formatted, unformatted}; each is printed through '
+              'Print/PrintUnformatted/PrintBuffered(every prebuffer 0..len+3)/PrintPreallocated(every n 0..len+16) under both allocator configurations; non-trivial = every case; distinct by construction')
+PRINT_ASSUME = ['number texts come from the catalogue generated with Python\'s correctly rounded formatting; the catalogue generator asserts read-back within DBL_EPSILON, exactness of integers below 10^15 and the print/parse fixed point for every catalogue number',
+                'writes outside a caller buffer are observed with an inaccessible page after it and a canary area before it']
+PRINT_NOTE = 'bounded tree universe and number catalogue; TLC, the driver and the catalogue generator are trusted; a text that differs from the predicted bytes is judged by round trip in the driver and is recorded for validation by the TLA+ grammar'
+def print_plan(what, tech, fail=False):
+    return {'quick': [print_run('printQ', 'quick', failinject=fail)], 'thorough': [print_run('printT', 'thorough', failinject=fail), print_run('printQasan', 'quick', flavour='asan', failinject=fail)],
+            'rule': PRINT_RULE, 'assumptions': PRINT_ASSUME, 'technique': tech, 'level_text': what, 'level_note': PRINT_NOTE}
+PLANS['C04'] = print_plan('TLC proves for every tree x format x entry point x initial buffer size x growth strategy that the buffer machine yields Render(v), that Render(v) is an RFC text denoting v (so it parses back to v), and the real library is run over the same product: texts compared byte for byte, re-parsed, re-printed (fixed point), across allocator configurations.',
+                          'TLC checks the printbuffer step machine (ensure/growth/update_offset, all entry points, all prebuffers, realloc or not) against declarative Render and the RFC grammar; real texts compared with the prediction, re-parsed and re-printed')
+PLANS['C05'] = print_plan('Strictness and agreement of variants are proven by TLC on Render(v) with the declarative RFC 8259 grammar (the independent strict parser) and StripWs; the real print functions must return exactly those bytes from every variant, and any other bytes are validated by the TLA+ grammar.',
+                          'TLC proves Render(v) is one RFC 8259 text denoting v and StripWs(formatted) = unformatted; every real print variant must return the predicted bytes (differences validated by the TLA+ grammar), variants compared with each other')
+PLANS['C09'] = print_plan('TLC runs the buffer machine with noalloc for every tree, format and n in 0..len+8 and proves that no write reaches index n, that success implies the complete terminated text, that the success threshold lies in [len+1, len+6] and is monotone; the real call is made for every n in 0..len+16 on a buffer ending at an inaccessible page.',
+                          'TLC explores the noalloc buffer machine for every tree x n and checks the write high-water mark, threshold window and monotonicity; cJSON_PrintPreallocated run for every n on guard-page buffers')
+# C08 also covers parse and print under a refused request
+PLANS['C08']['quick'] = PLANS['C08']['quick'] + [parse_run('tok5fail', 'tok', 5, 1000, failinject=True), print_run('printQfail', 'quick', failinject=True)]
+PLANS['C08']['thorough'] = PLANS['C08']['thorough'] + [parse_run('tok7fail', 'tok', 7, 1000, failinject=True), parse_run('str2fail', 'str', 2, 1000, failinject=True),
+                                                       print_run('printTfail', 'thorough', failinject=True), print_run('printQfailasan', 'quick', flavour='asan', failinject=True)]
+PLANS['C08']['rule'] = TREE_RULE + '; plus every parse of the token universe and every print of the print universe with each single allocation request refused in turn (both allocator configurations for printing)'
 NOT_CLAIMED = {}
 
 
@@ -158,6 +183,34 @@ def numobs_check(prop, path, outdir):
                 open(rp, 'w').write('# number literal %s: parsed to bits %s valueint %s, correctly rounded is %016x valueint %d\n' % (lex, bits, iv, eb, ei))
                 out.append('VIOLATION property=C02 replay=%s :: number literal %s decoded to %s (int %s), expected %016x (int %d)' % (rp, lex, bits, iv, eb, ei))
     return '\n'.join(out) + ('\n' if out else '')
+
+
+def textcheck(prop, path, outdir, V):
+    """texts the real printer produced that differ from the prediction: judged by the TLA+ RFC grammar (MC_TextCheck.tla)"""
+    import subprocess, re, shutil
+    try:
+        lines = [l for l in open(path).read().splitlines() if l.strip()]
+    except OSError:
+        return '', 0
+    if not lines:
+        return '', 0
+    cfg = os.path.join(outdir, 'textcheck.cfg')
+    open(cfg, 'w').write('CONSTANTS\n MaxDepth = 1000\nINIT Init\nNEXT Next\nINVARIANTS Judge\nCHECK_DEADLOCK FALSE\n')
+    md = os.path.join(outdir, 'md-textcheck')
+    env = dict(os.environ); env['DRIFT'] = path
+    r = subprocess.run('cd %s/spec && timeout 1200 tlc -workers 1 -metadir %s -config %s MC_TextCheck.tla 2>&1' % (V, md, cfg), shell=True, env=env, capture_output=True, text=True)
+    shutil.rmtree(md, ignore_errors=True)
+    out, n = [], 0
+    for m in re.finditer(r'<<"V", (\d+), (TRUE|FALSE)>>', r.stdout):
+        n += 1
+        if m.group(2) == 'FALSE' and prop == 'C05' and len(out) < 10:
+            i = int(m.group(1))
+            rp = os.path.join(outdir, 'C05-text-%d.case' % i)
+            open(rp, 'w').write(lines[i - 1] + '\n')
+            out.append('VIOLATION property=C05 replay=%s :: printed text is not one RFC 8259 text denoting the tree (judged by the TLA+ grammar): %s' % (rp, lines[i - 1][:200]))
+    if n != len(lines):
+        out.append('check: MACHINERY FAILURE textcheck judged %d of %d texts: %s' % (n, len(lines), r.stdout[-300:]))
+    return '\n'.join(out) + ('\n' if out else ''), n
 
 
 def run_custom(kind, prop, run, outdir, bins, seed, V, REPO):
